@@ -207,7 +207,7 @@ def classify(q, m, only_c, only_p):
         elif isinstance(a, QueryElement):
             if a.atomic_number >= 116:
                 qheavy.add(a.atomic_number)
-    if heavy and qheavy and only_c and not only_p:
+    if heavy and (qheavy or any(isinstance(a, AnyMetal) for _, a in q.atoms())) and only_c and not only_p:
         return 'lv-ts-og-shared-bit'
     if any(a.implicit_hydrogens is None for _, a in m.atoms()):
         return 'unknown-hydrogen-count'
@@ -246,6 +246,9 @@ def layout_boundaries(ctx, rng):
         q.add_atom(QueryElement.from_atomic_number(z)(), 1)
         ctx.count('layout.elements')
         pair(ctx, q, m, '[#%d]' % z, 'atoms(%d,%d,%d,%d)' % (z, 119 - z, max(1, z - 1), min(118, z + 1)), rng, (False,))
+        qm = QueryContainer('M')
+        qm.add_atom(AnyMetal(), 1)
+        pair(ctx, qm, m, '[M]', 'atoms(%d,%d,%d,%d)' % (z, 119 - z, max(1, z - 1), min(118, z + 1)), rng, (False,))
         q2 = QueryContainer('list')
         q2.add_atom(ListElement([cls.__name__, 'C']), 1)
         pair(ctx, q2, m, '[%s,C]' % cls.__name__, 'atoms(%d,...)' % z, rng, (False,))
